@@ -51,7 +51,7 @@ impl<'a> Iterator for Tokenizer<'a> {
                             break;
                         }
                     }
-                    Some(Token::Num(number.parse::<f64>().unwrap()))
+                    Some(Token::Num(number.parse::<f64>().ok()?))
                 } else {
                     None
                 }
@@ -59,52 +59,52 @@ impl<'a> Iterator for Tokenizer<'a> {
             Some('⁰') => Some(Token::Superscript(
                 deserialize_superscript_number(&current_char?, &mut self.expr)
                     .parse::<f64>()
-                    .unwrap(),
+                    .ok()?,
             )),
             Some('¹') => Some(Token::Superscript(
                 deserialize_superscript_number(&current_char?, &mut self.expr)
                     .parse::<f64>()
-                    .unwrap(),
+                    .ok()?,
             )),
             Some('²') => Some(Token::Superscript(
                 deserialize_superscript_number(&current_char?, &mut self.expr)
                     .parse::<f64>()
-                    .unwrap(),
+                    .ok()?,
             )),
             Some('³') => Some(Token::Superscript(
                 deserialize_superscript_number(&current_char?, &mut self.expr)
                     .parse::<f64>()
-                    .unwrap(),
+                    .ok()?,
             )),
             Some('⁴') => Some(Token::Superscript(
                 deserialize_superscript_number(&current_char?, &mut self.expr)
                     .parse::<f64>()
-                    .unwrap(),
+                    .ok()?,
             )),
             Some('⁵') => Some(Token::Superscript(
                 deserialize_superscript_number(&current_char?, &mut self.expr)
                     .parse::<f64>()
-                    .unwrap(),
+                    .ok()?,
             )),
             Some('⁶') => Some(Token::Superscript(
                 deserialize_superscript_number(&current_char?, &mut self.expr)
                     .parse::<f64>()
-                    .unwrap(),
+                    .ok()?,
             )),
             Some('⁷') => Some(Token::Superscript(
                 deserialize_superscript_number(&current_char?, &mut self.expr)
                     .parse::<f64>()
-                    .unwrap(),
+                    .ok()?,
             )),
             Some('⁸') => Some(Token::Superscript(
                 deserialize_superscript_number(&current_char?, &mut self.expr)
                     .parse::<f64>()
-                    .unwrap(),
+                    .ok()?,
             )),
             Some('⁹') => Some(Token::Superscript(
                 deserialize_superscript_number(&current_char?, &mut self.expr)
                     .parse::<f64>()
-                    .unwrap(),
+                    .ok()?,
             )),
             Some('0'..='9') => {
                 let mut number = current_char?.to_string();
@@ -115,7 +115,7 @@ impl<'a> Iterator for Tokenizer<'a> {
                         break;
                     }
                 }
-                Some(Token::Num(number.parse::<f64>().unwrap()))
+                Some(Token::Num(number.parse::<f64>().ok()?))
             }
             Some('a') => match self.expr.clone().take(6).collect::<String>().as_str() {
                 "rsinh(" => {
